@@ -118,7 +118,38 @@ class Models:
                 factory = kwargs["default_factory"]
         elif v is not None:
             default = v
+        # constraints given as Annotated[...] metadata (directly or through a module-level alias `Score = Annotated[float, Field(ge=0,
+        # le=1)]`) constrain the field like the keywords of `= Field(...)`; the assignment's own keywords win
+        for meta in self.annotated_meta(c.module, st.annotation):
+            if isinstance(meta, ast.Call) and dotted_name(meta.func) in ("Field", "pydantic.Field"):
+                for k in meta.keywords:
+                    if k.arg and k.arg not in ("default", "default_factory") and k.arg not in kwargs:
+                        kwargs[k.arg] = k.value
         return FieldInfo(st.target.id, c, st, st.annotation, shape, has_default, default, factory, kwargs)
+
+    def annotated_meta(self, mod: Module, ann: ast.expr, depth=0) -> List[ast.expr]:
+        """metadata expressions of every Annotated[...] the annotation is (after following module-level aliases) or contains at top level"""
+        if depth > 6:
+            return []
+        if isinstance(ann, ast.Constant) and isinstance(ann.value, str):
+            try:
+                return self.annotated_meta(mod, ast.parse(ann.value, mode="eval").body, depth + 1)
+            except SyntaxError:
+                return []
+        if isinstance(ann, (ast.Name, ast.Attribute)):
+            d = dotted_name(ann)
+            s = self.index.resolve(mod, d) if d else None
+            if s is not None and s.kind == "assign" and s.module is not None and getattr(s.node, "value", None) is not None:
+                return self.annotated_meta(s.module, s.node.value, depth + 1)
+            return []
+        if isinstance(ann, ast.Subscript):
+            head = (dotted_name(ann.value) or ast.unparse(ann.value)).split(".")[-1]
+            args = ann.slice.elts if isinstance(ann.slice, ast.Tuple) else [ann.slice]
+            if head == "Annotated":
+                return list(args[1:]) + self.annotated_meta(mod, args[0], depth + 1)
+            if head == "Optional":
+                return self.annotated_meta(mod, args[0], depth + 1)
+        return []
 
     # ------------------------------------------------------------------ annotation shapes
     def shape(self, mod: Module, ann: ast.expr, depth=0) -> tuple:
